@@ -1029,3 +1029,139 @@ def _E_with_fstring(self, e):
 
 
 ModuleTranslator.E = _E_with_fstring
+
+
+# ---- appended for C14 (aggregates: excellib._numerics / sum_, lib.stats) ----
+# (1) callees with *args: the Coq function takes the args tuple as its last
+#     parameter; a call f(a, b) packs the surplus positionals into a tuple and
+#     f(*t) passes tuple(t).  Keyword-only parameters come from keywords or
+#     from their (constant) defaults.
+# (2) a keyword-only parameter whose default is a lambda (to_number=lambda x: x)
+#     is not a parameter of the Coq function: it is bound to its default and
+#     inlined (beta-reduced) where the body calls it.  A caller that passes the
+#     keyword is rejected ("unknown keyword"): the specialisation is sound for
+#     exactly the call sites that are translated.
+# (3) consts entry 'Class.NAME': a class-level constant, emitted as
+#     c_Class_NAME at the end of the generated module.
+_info_of_before_c14 = ModuleTranslator.info_of
+_function_before_c14 = ModuleTranslator.function
+_call_before_c14 = ModuleTranslator.call
+_args_for_before_c14 = ModuleTranslator.args_for
+_translate_before_c14 = ModuleTranslator.translate
+
+
+def _info_of_c14(self, fd, name):
+    info = _info_of_before_c14(self, fd, name)
+    lam = {}
+    for x, d in zip(fd.args.kwonlyargs, fd.args.kw_defaults):
+        if isinstance(d, ast.Lambda):
+            la = d.args
+            if la.vararg or la.kwarg or la.kwonlyargs or la.defaults or la.posonlyargs:
+                bail(d, "lambda default with a non-trivial signature")
+            lam[x.arg] = d
+    if lam:
+        info.params = [p for p in info.params if p not in lam]
+        for p in lam:
+            info.defaults.pop(p, None)
+    info.lambdas = lam
+    info.npos = len(fd.args.args)
+    return info
+
+
+def _function_c14(self, fd, info):
+    self.lambda_env = dict(getattr(info, 'lambdas', {}))
+    for n in ast.walk(fd):
+        # the lambda-bound names must never be rebound in the body
+        if isinstance(n, ast.Name) and isinstance(n.ctx, ast.Store) and n.id in self.lambda_env:
+            bail(n, "assignment to a lambda-valued parameter")
+    return _function_before_c14(self, fd, info)
+
+
+def _call_c14(self, e):
+    f = e.func
+    env = getattr(self, 'lambda_env', {})
+    if isinstance(f, ast.Name) and f.id in env and f.id not in self.scope:
+        lam = env[f.id]
+        params = [a.arg for a in lam.args.args]
+        if e.keywords or len(e.args) != len(params) \
+                or any(isinstance(a, ast.Starred) for a in e.args):
+            bail(e, "call of a lambda-valued parameter")
+        argterms = [self.E(a) for a in e.args]
+        saved = set(self.scope)
+        self.scope = set(params)        # the lambda body must be closed over its parameters
+        body = self.E(lam.body)
+        self.scope = saved
+        tmps = [self.fresh('a') for _ in params]
+        lets = "".join(f"let v_{p} := {tmp} in " for p, tmp in zip(params, tmps))
+        t = f"({lets}{body})"
+        for a, tmp in reversed(list(zip(argterms, tmps))):
+            t = f"(bind {a} (fun {tmp} => {t}))"
+        return t
+    return _call_before_c14(self, e)
+
+
+def _args_for_c14(self, info, call):
+    if not info.vararg:
+        return _args_for_before_c14(self, info, call)
+    npos = getattr(info, 'npos', None)
+    if npos is None:
+        bail(call, "call of a *args function of unknown arity")
+    fixed, rest = list(call.args[:npos]), list(call.args[npos:])
+    if any(isinstance(a, ast.Starred) for a in fixed):
+        bail(call, "starred argument in a fixed position")
+    given = {}
+    for p, a in zip(info.params[:npos], fixed):
+        given[p] = self.E(a)
+    if len(rest) == 1 and isinstance(rest[0], ast.Starred):
+        var = f"(lift1 py_tuple {self.E(rest[0].value)})"
+    elif not any(isinstance(a, ast.Starred) for a in rest):
+        var = self.E(ast.Tuple(elts=rest, ctx=ast.Load()))
+    else:
+        bail(call, "mixed starred arguments")
+    for kw in call.keywords:
+        if kw.arg is None or kw.arg not in info.params:
+            bail(call, "unknown keyword")
+        if not isinstance(kw.value, (ast.Constant, ast.Name)):
+            bail(call, "keyword argument of a *args call is not an atom")
+        given[kw.arg] = self.E(kw.value)
+    out = []
+    for p in info.params:
+        if p in given:
+            out.append(given[p])
+        elif p in info.defaults:
+            out.append(f"(Ok {self.atom_const(info.defaults[p])})")
+        else:
+            bail(call, f"missing argument {p}")
+    return ('plain', out + [var])
+
+
+def _translate_c14(self):
+    dotted = [c for c in self.const_names if '.' in c]
+    if not dotted:
+        return _translate_before_c14(self)
+    self.const_names = [c for c in self.const_names if '.' not in c]
+    text = _translate_before_c14(self)
+    mod = importlib.import_module(self.pymod)
+    lines = []
+    for c in dotted:
+        cls, attr = c.split('.')
+        found = False
+        for n in self.tree.body:
+            if isinstance(n, ast.ClassDef) and n.name == cls:
+                for m in n.body:
+                    if isinstance(m, ast.Assign) and len(m.targets) == 1 \
+                            and isinstance(m.targets[0], ast.Name) and m.targets[0].id == attr:
+                        found = True
+        if not found:
+            raise Untranslatable(f"{self.modname}: class constant {c} not found")
+        lines.append(f"Definition c_{cls}_{attr} : pyval := "
+                     f"{coq_value(getattr(getattr(mod, cls), attr))}.")
+    self.const_names = self.const_names + dotted
+    return text + "\n".join(lines) + "\n"
+
+
+ModuleTranslator.info_of = _info_of_c14
+ModuleTranslator.function = _function_c14
+ModuleTranslator.call = _call_c14
+ModuleTranslator.args_for = _args_for_c14
+ModuleTranslator.translate = _translate_c14
